@@ -2,6 +2,7 @@ import Mimium.Props.C13
 import Mimium.Proofs.ParserLoops
 import Mimium.Gen.ParserLoops
 import Mimium.Proofs.Occurs
+import Mimium.Gen.TypingFacts
 /-!
 # C04 — front end and compile entry points are total on arbitrary text
 
@@ -146,7 +147,8 @@ theorem C04_error_spans_inside (C : Classes) (T : Tables) (ok : TablesOk T = tru
       exact key t (List.mem_of_getLast? ht)
     · exact ⟨Nat.le_refl _, Nat.zero_le _, ⟨[], List.nil_prefix, rfl⟩, ⟨[], List.nil_prefix, rfl⟩⟩
 
-/-! ## Where the statement fails on the pinned tree: three pieces of the type checker (findings T11, T13, T19) -/
+/-! ## Where the statement failed on the pinned tree: three pieces of the type checker (findings T11 and T13: repaired in /repo
+fa2b0e3 and 29dd9f5, the theorems about the old forms are kept next to the ones about the repaired forms; T19: open) -/
 
 open Mimium.Occurs in
 /-- PARTIAL (what holds): on every store whose parent pointers have no cycle, `occur_check` returns — for each variable and
@@ -205,6 +207,30 @@ open Mimium.Occurs in
 theorem C04_tuple_projection_counterexample :
     projCheck [1, 2] 2 = .ok none ∧ projCheck [1, 2] 3 = .error () ∧ projCheck [1, 2] 1 = .ok (some 2) :=
   ⟨rfl, rfl, rfl⟩
+
+open Mimium.Occurs in
+/-- the REPAIRED range check (/repo 29dd9f5, `vec.len() <= idx`): for every tuple and every index it yields the element or
+the diagnostic — Rust's index panic (`.ok none`) is unreachable. -/
+theorem C04_tuple_projection_total {α : Type} (vec : List α) (idx : Nat) :
+    (idx < vec.length → ∃ x, projCheckLe vec idx = .ok (some x)) ∧
+    (vec.length ≤ idx → projCheckLe vec idx = .error ()) ∧
+    projCheckLe vec idx ≠ .ok none := by
+  unfold projCheckLe
+  refine ⟨fun h => ⟨vec[idx], by simp [Nat.not_le.mpr h, List.getElem?_eq_getElem h]⟩, fun h => by simp [h], ?_⟩
+  split
+  · intro h; cases h
+  · rename_i hn
+    intro h
+    injection h with h
+    have := List.getElem?_eq_none_iff.mp h
+    omega
+
+/-- translator facts, pinned: /repo's type checker uses the repaired forms — the occurs check looks into both sides of a
+function type (`||`, so `occ σ false` is the model of the code as written and `C04_occur_check_counterexample` describes
+the OLD code), and the projection check rejects `idx = len` (`projCheckLe`). Reverting either breaks this theorem; the
+search then replays the old witnesses (`fn f(x){ x(x) }`, `t.2` on a pair). -/
+theorem C04_typing_facts_pinned :
+    Mimium.Gen.occursFnArmIsOr = true ∧ Mimium.Gen.projCheckRejectsLen = true := by decide
 
 open Mimium.Occurs in
 /-- PARTIAL: up to 255 nested quote levels the stage counter is exact. -/
